@@ -340,10 +340,60 @@ pub fn oracle_c06(sc: &Scenario, s: &Session) -> Option<Violation> {
         }
     }
     let sig = sig.unwrap();
-    // every closure target up to date at the final idle point
+    // every closure target up to date at the final idle point. A target whose last run failed,
+    // or that depends on one, is blocked: it only has to have *seen* the last change.
+    let last_failed = |t: &Tid| -> bool {
+        r.insts(&c.sim_id(t)).last().map(|p| p.exit.as_ref().map(|e| e.1 != 0).unwrap_or(false)).unwrap_or(false)
+            || r.events.iter().filter(|e| e.kind == "proc-spawn-failed" && e.field("id") == Some(c.sim_id(t).as_str())).last().map(|e| r.insts(&c.sim_id(t)).last().map(|p| p.spawn_seq < e.seq).unwrap_or(true)).unwrap_or(false)
+    };
     for t in &c.clo {
+        if model::kind_of(sc, t) == Some(Kind::Aggregate) {
+            continue;
+        }
+        let blocked_by_dep = model::transitive_effective_deps(sc, t).iter().any(|d| last_failed(d));
+        if blocked_by_dep {
+            continue;
+        }
+        if last_failed(t) {
+            // the failing run must be the one that saw the final inputs: a change made while a
+            // failing build was running must not be forgotten
+            let want = final_snapshot(sc, &s.case, t);
+            if let Some(p) = r.insts(&c.sim_id(t)).last() {
+                let spawn_failed_later = r.events.iter().any(|e| e.kind == "proc-spawn-failed" && e.field("id") == Some(c.sim_id(t).as_str()) && e.seq > p.spawn_seq);
+                if !spawn_failed_later && p.snap != hex(want) {
+                    return viol(
+                        "change-forgotten-after-failed-build",
+                        format!("target={} {}", c.display(t), change_placement(&c, t)),
+                        format!("the last run of {} failed, but it had read inputs with snapshot {} while the final inputs have {}: a change made since was never acted upon", c.display(t), p.snap, hex(want)),
+                    );
+                }
+            }
+            continue;
+        }
         if let Some(v) = target_up_to_date(sc, s, &c, t, sig) {
             return Some(v);
+        }
+        // the last evaluation of t comes after the last completion of each of its build
+        // dependencies (and, for a service, after the last start of its service dependencies)
+        let last_eval = c.starts(t).into_iter().chain(r.skips(&c.display(t)).into_iter()).filter(|&x| x < sig).max();
+        if let Some(x) = last_eval {
+            for d in model::effective_deps(sc, t) {
+                let dk = model::kind_of(sc, &d);
+                let d_last = match dk {
+                    Some(Kind::Build) => c.build_ready_seqs(&d).into_iter().filter(|&y| y < sig).max(),
+                    Some(Kind::Service) if model::kind_of(sc, t) == Some(Kind::Service) => c.starts(&d).into_iter().filter(|&y| y < sig).max(),
+                    _ => None,
+                };
+                if let Some(y) = d_last {
+                    if y > x {
+                        return viol(
+                            "not-re-evaluated-after-dependency-rerun",
+                            format!("target={} dep={}", c.display(t), c.display(&d)),
+                            format!("{} was last evaluated at seq {} but its dependency {} finished a later re-run at seq {}: the dependent was not brought up to date after its dependency's own re-run", c.display(t), x, c.display(&d), y),
+                        );
+                    }
+                }
+            }
         }
     }
     None
@@ -467,6 +517,22 @@ pub fn oracle_c01b(sc: &Scenario, r: &RunResult) -> Option<Violation> {
             }
         }
     }
+    for e in &r.events {
+        if e.kind == "send" && (e.rest.contains("msg:Ok{") || e.rest.contains("msg:Invalidated{")) && !task_of.contains_key(&e.task) {
+            let body = e.rest.split("msg:").nth(1).unwrap_or("");
+            let tn = body.split("target_name:\"").nth(1).and_then(|x| x.split('"').next());
+            let pn = if body.contains("project_name:Some(\"") { body.split("project_name:Some(\"").nth(1).and_then(|x| x.split('"').next()) } else { None };
+            if let Some(tn) = tn {
+                let disp = match pn {
+                    Some(p) => format!("{}::{}", p, tn),
+                    None => tn.to_string(),
+                };
+                if let Some(t) = sc.all_targets().into_iter().find(|t| sc.display(t.0, &t.1) == disp) {
+                    task_of.insert(e.task.clone(), t);
+                }
+            }
+        }
+    }
     #[derive(Default)]
     struct St {
         // (dependency display, kind) → parked since the invalidation?
@@ -505,6 +571,20 @@ pub fn oracle_c01b(sc: &Scenario, r: &RunResult) -> Option<Violation> {
                         s.invalid.insert((dep, kind), false);
                     } else {
                         s.invalid.remove(&(dep, kind));
+                    }
+                }
+            }
+            "send" if e.rest.contains("msg:Ok{") => {
+                // an aggregate acknowledges on behalf of its dependencies: it must not say Ok
+                // for a kind while one of them last said Invalidated for that kind
+                if model::kind_of(sc, &t) == Some(Kind::Aggregate) {
+                    let kind = e.rest.split("msg:Ok{kind:").nth(1).and_then(|x| x.split(',').next()).unwrap_or("").to_string();
+                    if let Some(((dep, k), _)) = s.invalid.iter().find(|((_, k), _)| *k == kind) {
+                        return viol(
+                            "aggregate-ready-while-dependency-out-of-date",
+                            format!("aggregate={} dep={} kind={}", sc.display(t.0, &t.1), dep, k),
+                            format!("aggregate {} told its requesters Ok{{{}}} (seq {}) although the latest word it had received from its dependency {} was Invalidated{{{}}}: whoever depends on the aggregate starts while that dependency is out of date", sc.display(t.0, &t.1), kind, e.seq, dep, k),
+                        );
                     }
                 }
             }
@@ -651,11 +731,19 @@ impl Property for C06 {
         vec!["change-applied-during-a-build", "try_send-slot-already-full"]
     }
     fn generate(&self, rng: &mut Rng, _case: u64) -> Scenario {
-        gen_watch(rng, &WatchOpts::default())
+        // a fifth of the sessions also have a build that fails once (by occurrence, whatever it
+        // read): a change made during the failing run must still be acted upon
+        gen_watch(rng, &WatchOpts { fail_pct: 20, ..Default::default() })
     }
     fn evaluate(&self, sc: &Scenario, root: &Path, stats: &mut Stats) -> Option<Violation> {
         let s = run_session(sc, root, stats, |c| c.r.events.iter().any(|e| e.kind == "fs-apply"))?;
-        oracle_c06(sc, &s)
+        if let Some(v) = oracle_c06(sc, &s) {
+            return Some(v);
+        }
+        // "... by an execution that started after its dependencies finished their own re-run":
+        // seen from the messages, no execution may be decided while a dependency's latest word
+        // is that it is out of date (the same exact clause as C01(b))
+        super::watch::oracle_c01b(sc, &s.r).map(|v| Violation { oracle: format!("re-run-before-dependencies-finished:{}", v.oracle), witness: v.witness, message: v.message })
     }
 }
 
